@@ -15,7 +15,7 @@ import shutil
 
 import vlib
 
-PROPS = ['Rangers.Props.C18', 'Rangers.Props.C18Gen', 'Rangers.Props.C18Aux', 'Rangers.Props.C18Sites', 'Rangers.Props.C18Size', 'Rangers.Props.C18Exp']
+PROPS = ['Rangers.Props.C18', 'Rangers.Props.C18Gen', 'Rangers.Props.C18Aux', 'Rangers.Props.C18Sites', 'Rangers.Props.C18Size', 'Rangers.Props.C18Exp', 'Rangers.Props.C18Tx']
 DRIVERS = ['C18']
 
 META = dict(
